@@ -462,6 +462,9 @@ R05.5 (matryer) no user-supplied Func field and no other mock method is called w
 	c.Rule("R05.0", 500, "skeleton is analysable (evaluates, parses, type-checks)")
 
 	analysable := func(p *TPath) bool {
+		if usesTypeParamTypes(p.Shape) {
+			return false
+		}
 		switch {
 		case p.Err != nil:
 			c.Fail("R05.0", p.Tmpl+"|eval|"+p.Err.err.Error(), p.E.nodePos(p.Err.node), "template path cannot be evaluated: "+p.Err.err.Error()+" ["+p.Env()+"]")
